@@ -455,11 +455,18 @@ Definition stream_connect (s : st) : st :=
   if Z.eqb error (- EINPROGRESS) then s1
   else
     let s2 := set_connecting false s1 in
-    let s3 := if (error <? 0)%Z || match wq s2 with [] => true | _ => false end
-              then set_armed false s2 else s2 in            (* uv__io_stop(POLLOUT) *)
+    (* uv__io_stop(POLLOUT) unless writes are queued or a shutdown is pending (the next
+       wake-up then runs uv__stream_io, which drains and performs the shutdown) *)
+    let s3 := if (error <? 0)%Z || (match wq s2 with [] => true | _ => false end && negb (shutreq s2))
+              then set_armed false s2 else s2 in
     let s4 := run_cb (ev (EConnCb error) s3) in             (* req->cb(req, error) *)
     if negb (fdopen s4) then s4                             (* closed in the callback *)
-    else if (error <? 0)%Z then write_callbacks (flush s4)
+    else if (error <? 0)%Z then
+      let s5 := write_callbacks (flush s4) in
+      (* a shutdown queued behind the writes is reported, too (ENOTCONN) *)
+      if fdopen s5 then
+        match wq s5, cq s5 with [], [] => drain s5 | _, _ => s5 end
+      else s5
     else s4.
 
 (* uv__stream_io with POLLOUT (nothing to read) *)
